@@ -4,5 +4,6 @@ CONSTANTS
   MaxL = 12
   MaxB = 6
   MaxH = 14
+  MaxJ = 3
 INVARIANTS HintPinnedOK
 CHECK_DEADLOCK FALSE
